@@ -47,6 +47,11 @@ def run(tier, seed):
             srcs_ = [o["name"] for o in p["ops"] if o["op"] == "req" and o["req"]["type"] in ("flow", "comp")]
             if srcs_ and not any(o["op"] == "whitelist" for o in p["ops"]):
                 p["ops"].append({"op": "req", "name": "c0", "save": True, "req": {"type": "cum", "source": srcs_[0], "start": "0"}})
+        elif len(progs) % 6 == 1:
+            # two infectious compartments with their own infectiousness adjustments, listed in another order than the
+            # compartments: reordering the compartments must still only permute the results
+            p = g.program({"requests": False, "state_rates": False, "nsteps": 2, "nonlinear": True, "two_inf": True, "p_iadj": 1.0,
+                           "nstrat": g.rng.choice([1, 2]), "p_post": 0.0, "p_full": 1.0, "min_strata": 2, "h": g.rng.choice(["1/4", "1/2"])})
         elif len(progs) % 4 == 3:
             # several stratifications with mixing matrices (of different sizes): category order vs Kronecker order
             p = g.program({"requests": False, "state_rates": False, "nsteps": 2, "nonlinear": True, "p_mix": 1.0,
@@ -91,7 +96,7 @@ def run(tier, seed):
         if not TR.has_time(base["ops"]):
             variants.append(["time shift", TR.shift_time(base, gen.Fraction(rng.choice([3, 7, -5]), rng.choice([1, 2])))])
         kinds = {o["kind"] for o in base["ops"] if o["op"] == "flow"}
-        k = rng.choice(["2", "3", "1/2", "1/1024", "1/1099511627776"])      # (1/1024: mixing categories hold less than one person; 2^-40: populations given as tiny proportions)
+        k = ["2", "1/1024", "3", "1/1099511627776", "1/2"][len(progs) % 5]      # (1/1024: mixing categories hold less than one person; 2^-40: populations given as tiny proportions)
         if not TR.scalable(base):
             pass
         elif "infection_density" in kinds and "infection_frequency" not in kinds:
